@@ -183,7 +183,7 @@ def rand_case(rng, nested=False):
     else:
         late_sibs = []
     return {"shape": shape, "content": content, "json_mode": rng.random() < 0.1, "prior_document": rng.choice([0, 0, 0, 1, 2]), "late": late_pair + late_sibs + [rand_body_node(rng, ids, 1) for _ in range(n_late)], "kw": kw,
-            "lib_prefix": rng.choice(["lib", "lib", None, "", "a/b"]), "include_version": rng.random() < 0.7, "late_together": rng.random() < 0.5}
+            "lib_prefix": rng.choice(["lib", "lib", None, "", "a/b", "/", "//", "lib/", "/static", "//cdn.example/x", ".", "../up", "with space"]), "include_version": rng.random() < 0.7, "late_together": rng.random() < 0.5}
 
 
 def has_nested_dep(case):
